@@ -1,8 +1,23 @@
-(** C09 - placeholder statements; see inf/InferFacts.v *)
+(** C09 - JSON accepted by an inferred schema decodes into the type.  (partial)
+    The decoder of encoding/json is not modelled; what is proved is the schema side for the
+    scalar types: the inferred schema accepts exactly the JSON values the decoder takes for
+    the type - the right JSON type and, for sized integers, the range of the kind.  For
+    structs, slices, arrays and maps the property is decided by the correspondence law on the
+    real decoder (family infer: every mutated document the schema accepts must decode with
+    DisallowUnknownFields). *)
 From Coq Require Import List NArith ZArith QArith Bool.
-From JS Require Import Str Lit Json Res GoValue Schema Basic GoType Encode Infer InferFacts.
+From JS Require Import Str Lit Json Res Schema Basic Env Spec GoType Infer Accept C09Facts.
 Import ListNotations.
+Local Open Scope nat_scope.
 
-Theorem C09_names_distinct : forall ovr t, NoDup (map jf_name (json_fields ovr t)).
-Proof. exact json_fields_names_nodup. Qed.
-Print Assumptions C09_names_distinct.
+Theorem C09_scalar_verdict : forall re_match e o n seen t s,
+  e_draft7 e = false -> is_scalar t = true -> infer o (S n) seen t = Ok (Some s) ->
+  forall j k C l, exists sg, spec_eval re_match (S k) e C j l s = Some (decodes_scalar t j, sg).
+Proof. exact scalar_verdict. Qed.
+Print Assumptions C09_scalar_verdict.
+
+(** e.g. 128 is rejected for int8, 127 accepted; 1.5 rejected for any integer kind *)
+Example C09_example :
+  decodes_scalar (TyInt KInt8) (JNum (128#1)) = false /\ decodes_scalar (TyInt KInt8) (JNum (127#1)) = true /\
+  decodes_scalar (TyInt KUint32) (JNum (3#2)) = false /\ decodes_scalar TyString (JNum 1) = false.
+Proof. vm_compute. repeat split. Qed.
